@@ -212,7 +212,9 @@ def shards(tier, seed):
             items.append({"what": "prog", "n": 300, "len": 14, "max": 200, "seed": seed * 1000 + i})
         for i in range(4):
             items.append({"what": "boundary", "ops": rv32.ALL_OPS[i::4]})
+        items.append({"what": "pairs"})
     else:
+        items.append({"what": "pairs"})
         for i in range(16):
             items.append({"what": "boundary", "ops": rv32.ALL_OPS[i::16]})
         for i in range(46):
@@ -234,6 +236,11 @@ def run_shard(item, stats):
         for op in item["ops"]:
             core.run_cases(boundary_cases(op), check, stats, km)
         stats.exhaustive_parts.append("per-mnemonic boundary/aliasing product as one-instruction programs (deterministic)")
+        return
+    if item["what"] == "pairs":
+        from vf.props import c01
+        core.run_cases(({"prog": c["prog"], "regs": c["regs"], "mem": c["mem"], "max": 10} for c in c01.pair_cases()), check, stats, km)
+        stats.exhaustive_parts.append("producer x consumer instruction pair product (deterministic)")
         return
     if item["what"] == "single":
         for j, op in enumerate(item["ops"]):
